@@ -482,6 +482,16 @@ def check(prop: str, tier: str, seed: int) -> core.Report:
         raise core.MachineryError(f"MC_Signals burst dump has {len(gb.states)} states, TLC reports {dumpb.distinct}")
     rep.add_tlc(dumpb, "MC_Signals burst dump: every transition of the bounded graph with unsettled dispatches exported")
     statsb, mismb = graphwalk.walk(gb, make, seed + 1, backends=vclock.BACKENDS)
+    # a third, tiny graph: one channel, one subscriber, bursts of up to three events (a waiter handed the first, the second queued, the third ...)
+    dump3 = tlc.run("MC_Signals", "MC_Signals_burst3", workers=1, heap="4g", timeout=1800, check=False)
+    if dump3.error:
+        raise core.MachineryError(f"MC_Signals burst3 dump: {dump3.error}\n{dump3.out[-1500:]}")
+    g3 = graphwalk.load(dump3.out)
+    rep.add_tlc(dump3, "MC_Signals burst3 dump: one channel, one subscriber, bursts of up to three events")
+    stats3, mism3 = graphwalk.walk(g3, make, seed + 2, backends=vclock.BACKENDS, jobs=4)
+    for k in ("tours", "edges", "prefix_steps", "unexamined_transitions"):
+        statsb[k] = statsb.get(k, 0) + stats3.get(k, 0)
+    mismb = list(mismb) + list(mism3)
     rep.extra["replay_bursts"] = dict(statsb, states=len(gb.states), unsettled_dispatches=sum(1 for st in gb.states.values() for o, _ in st["edges"] if o.get("a") == "Dispatch" and not o.get("settle", True)))
     for k in ("tours", "edges", "prefix_steps", "unexamined_transitions"):
         stats[k] = stats.get(k, 0) + statsb.get(k, 0)
